@@ -1,0 +1,42 @@
+//go:build verif
+
+package lalr
+
+// Read-only accessors used by the verification harness in /verif.
+// They expose the unexported transition list that keys LookAheadSet.
+
+// VerifReduce describes one reduce transition (q, A -> w) and its lookahead set.
+type VerifReduce struct {
+	State     int   // index of the state in G.LR0.LR0Closure
+	Rule      int   // index of the rule in G.ProductoinRules
+	Lookahead []int // symbol ids (indexes into G.Symbols)
+}
+
+// VerifTransition describes one symbol transition q --sym--> to.
+type VerifTransition struct {
+	From, Sym, To int
+}
+
+// VerifReduceLookaheads returns a copy of every reduce transition with the
+// lookahead set yaccgo attached to it.
+func (lalr *LALR1) VerifReduceLookaheads() []VerifReduce {
+	res := []VerifReduce{}
+	for _, tr := range lalr.trans {
+		if tr.sym_or_rule&CheckMask != 0 {
+			la := append([]int(nil), lalr.LookAheadSet[tr.Index]...)
+			res = append(res, VerifReduce{State: tr.q, Rule: int(tr.sym_or_rule & Mask), Lookahead: la})
+		}
+	}
+	return res
+}
+
+// VerifTransitions returns a copy of every symbol transition.
+func (lalr *LALR1) VerifTransitions() []VerifTransition {
+	res := []VerifTransition{}
+	for _, tr := range lalr.trans {
+		if tr.sym_or_rule&CheckMask == 0 {
+			res = append(res, VerifTransition{From: tr.q, Sym: int(tr.sym_or_rule), To: tr.to})
+		}
+	}
+	return res
+}
